@@ -105,6 +105,11 @@ pub fn dec_dump(out: &[u8], digit_bits: usize) -> Result<Dump, Problem> {
         let ascii_txt = ascii_txt.strip_prefix(' ').unwrap_or(ascii_txt);
         let ascii_txt = ascii_txt.strip_suffix(' ').unwrap_or(ascii_txt);
         let ascii: Vec<char> = ascii_txt.chars().collect();
+        // the column delimiter cannot also be a character of the text column: a reader splitting the line at `|`
+        // would see four columns
+        if ascii.contains(&'|') {
+            return prob("syntax", format!("line {}: the text column contains the column delimiter `|`", ln + 1));
+        }
 
         // address
         if addr_txt.is_empty() || !addr_txt.chars().all(|c| c.is_ascii_hexdigit()) {
